@@ -59,6 +59,12 @@ static int compare(const void* a, const void* b, const void* ud)
 {
   const Elem* ea = (const Elem*)a;
   const Elem* eb = (const Elem*)b;
+#ifdef C06_VERIFY_BUILD
+  // cross-check build with tree.c's ZIX_TREE_VERIFY: verify() compares stored elements with each other
+  if (ea != probe) {
+    return (ea->key < eb->key) ? -1 : (ea->key > eb->key) ? 1 : 0;
+  }
+#endif
   if (ud != &cmp_ud || ea != probe) {
     ud_bad = 1;
   }
@@ -224,13 +230,14 @@ static void do_dump(FILE* o, FILE* s)
 {
   int* f  = NULL;
   int  nf = walk(1, &f);
-  fputs("D", o);
   fputs("D", s);
   if (nf < 0) {
+    fputs("D:LOOP", o);
     fputs("LOOP", s);
     return;
   }
   set_positions(f, nf);
+  int maxdepth = 0;
   for (int i = 0; i < nf; ++i) {
     const int ok = steer(f[i]);
     fprintf(s, "%s%d=", i ? ";" : "", f[i]);
@@ -239,7 +246,12 @@ static void do_dump(FILE* o, FILE* s)
     } else {
       fputs("BAD", s);
     }
+    if (n_cmplog > maxdepth) {
+      maxdepth = n_cmplog;
+    }
   }
+  // the deepest node = the most comparisons any (steered) find needs
+  fprintf(o, "D:h%d/%zu", maxdepth, zix_tree_size(tree));
   free(f);
 }
 
@@ -385,6 +397,8 @@ int main(void)
           fputs("-:c", s);
         }
         putdots(s, cmplog, n_cmplog);
+        fprintf(o, " fc%d/%zu", n_cmplog, zix_tree_size(tree));
+        fputs(" -", s);
       } else if (c == 'g') {
         if (arg < 0 || arg >= n_ids || !iter[arg]) {
           fputs("g:skip", o);
